@@ -1,12 +1,11 @@
 #!/bin/bash
-# tools/sweep.sh <tier> <seed>... : run every check at the given seeds on the unchanged tree; evidence and
+# tools/sweep.sh <tier> <seed>... : run every check (or those named in SWEEP_CHECKS) at the given seeds on the unchanged tree; evidence and
 # replays go to a scratch directory (committed evidence is untouched).  Prints one line per (check, seed).
 tier=$1; shift
 out=${SWEEP_OUT:-/tmp/sweep}
 mkdir -p $out
 for seed in "$@"; do
-  for i in $(seq -w 1 20); do
-    id=C$i
+  for id in ${SWEEP_CHECKS:-C01 C02 C03 C04 C05 C06 C07 C08 C09 C10 C11 C12 C13 C14 C15 C16 C17 C18 C19 C20}; do
     s=$(date +%s)
     VERIF_SCRATCH=$out/$tier-$seed VERIF_SEED=$seed VERIF_TIER=$tier timeout ${SWEEP_TIMEOUT:-3600} ./check $id $tier > $out/$id-$tier-$seed.log 2>&1
     rc=$?
